@@ -1,3 +1,192 @@
-//! generator for c12 artefacts (filled in later)
-use super::Fix;
-pub fn generate(_fix: &Fix, _tier: &str, _seed: u64, _out_dir: &str) {}
+//! C12 generator: offers every enumerated term (all base types) to the library's parsers and
+//! constructors natively and records who accepted it, plus the verdict of single validation
+//! switches; the harness decides what the accepted scripts do / are.
+use std::fmt::Write as _;
+use std::str::FromStr;
+
+use miniscript::descriptor::{Bare, Sh, TapTree, Tr, Wsh};
+use miniscript::{BareCtx, Descriptor, Legacy, Miniscript, Segwitv0, Tap, ValidationParams};
+
+use super::{build_shape, emit_shape, enumerate, hash_str, json_escape, write_out, CtxInfo, Fix, Inst, Pk, PALETTES, PRELUDE, T};
+use crate::spec;
+
+struct Case {
+    shape: usize,
+    /// (entry point, accepted)
+    entries: Vec<(&'static str, bool)>,
+    desc_parser_ok: bool,
+    ms_consensus_parser_ok: bool,
+    /// validate() with only `allow_sigless_branch = false` on top of MAX
+    sigless_rejected: bool,
+    /// (limit kind 0 ops / 1 witness items / 2 script size, limit, accepted, figure)
+    limits: Vec<(u8, u32, bool, u32)>,
+    dup_expected: bool,
+    dup_rejected: bool,
+}
+
+fn ctx_entries<Ctx: CtxInfo>(fix: &Fix, ms: &Miniscript<Pk, Ctx>, s: &str) -> (Vec<(&'static str, bool)>, bool)
+where
+{
+    let mut e: Vec<(&'static str, bool)> = vec![];
+    let mut desc_ok = false;
+    match Ctx::ID {
+        crate::vm::SEGWITV0 => {
+            let m = Miniscript::<Pk, Segwitv0>::from_str_with_validation_params(s, &ValidationParams::MAX).unwrap();
+            e.push(("Wsh::new", Wsh::new(m.clone()).is_ok()));
+            e.push(("Descriptor::new_wsh", Descriptor::new_wsh(m.clone()).is_ok()));
+            e.push(("Descriptor::new_sh_wsh", Descriptor::new_sh_wsh(m.clone()).is_ok()));
+            let d = Descriptor::<Pk>::from_str(&format!("wsh({s})")).is_ok();
+            e.push(("Descriptor::from_str(wsh(..))", d));
+            let d2 = Descriptor::<Pk>::from_str(&format!("sh(wsh({s}))")).is_ok();
+            e.push(("Descriptor::from_str(sh(wsh(..)))", d2));
+            desc_ok = d;
+        }
+        crate::vm::LEGACY => {
+            let m = Miniscript::<Pk, Legacy>::from_str_with_validation_params(s, &ValidationParams::MAX).unwrap();
+            e.push(("Sh::new", Sh::new(m.clone()).is_ok()));
+            e.push(("Descriptor::new_sh", Descriptor::new_sh(m.clone()).is_ok()));
+            let d = Descriptor::<Pk>::from_str(&format!("sh({s})")).is_ok();
+            e.push(("Descriptor::from_str(sh(..))", d));
+            desc_ok = d;
+        }
+        crate::vm::BARE => {
+            let m = Miniscript::<Pk, BareCtx>::from_str_with_validation_params(s, &ValidationParams::MAX).unwrap();
+            e.push(("Bare::new", Bare::new(m.clone()).is_ok()));
+            e.push(("Descriptor::new_bare", Descriptor::new_bare(m.clone()).is_ok()));
+            let d = Descriptor::<Pk>::from_str(s).is_ok();
+            e.push(("Descriptor::from_str(bare)", d));
+            desc_ok = d;
+        }
+        _ => {
+            let m = Miniscript::<Pk, Tap>::from_str_with_validation_params(s, &ValidationParams::MAX).unwrap();
+            let tr = Tr::new(fix.internal.clone(), Some(TapTree::leaf(m.clone())));
+            e.push(("Tr::new(leaf)", tr.is_ok()));
+            e.push(("Descriptor::new_tr(leaf)", Descriptor::new_tr(fix.internal.clone(), Some(TapTree::leaf(m.clone()))).is_ok()));
+            let d = Descriptor::<Pk>::from_str(&format!("tr({},{s})", fix.internal)).is_ok();
+            e.push(("Descriptor::from_str(tr(K,..))", d));
+            desc_ok = d;
+        }
+    }
+    e.push(("Miniscript::from_str", Miniscript::<Pk, Ctx>::from_str(s).is_ok()));
+    e.push(("Miniscript::from_str_insane", Miniscript::<Pk, Ctx>::from_str_insane(s).is_ok()));
+    let script = ms.encode();
+    e.push(("Miniscript::decode", Miniscript::<Ctx::Key, Ctx>::decode(&script).is_ok()));
+    e.push(("Miniscript::decode_consensus", Miniscript::<Ctx::Key, Ctx>::decode_consensus(&script).is_ok()));
+    e.push(("validate(Ctx::SANE)", ms.validate(&Ctx::SANE).is_ok()));
+    e.push(("validate(Ctx::CONSENSUS)", ms.validate(&Ctx::CONSENSUS).is_ok()));
+    (e, desc_ok)
+}
+
+fn gen_ctx<Ctx: CtxInfo>(fix: &Fix, tier: &str, seed: u64, maxn: usize, cap: usize, src: &mut String, cases: &mut Vec<Case>, names: &mut Vec<String>, samples: &mut Vec<String>) {
+    let mut ents = enumerate::<Ctx>(fix, Ctx::ID, maxn);
+    ents.sort_by_key(|e| (e.nodes.min(3), hash_str(&e.class, if tier == "thorough" { seed } else { 0 })));
+    ents.truncate(cap);
+    for e in &ents {
+        let g = match build_shape::<Ctx>(fix, &e.t, PALETTES[0], true) {
+            Ok(g) => g,
+            Err(_) => continue,
+        };
+        let mut inst = Inst::new(fix, PALETTES[0]);
+        let ms: Miniscript<Pk, Ctx> = inst.build(&e.t).unwrap();
+        let s = ms.to_string();
+        if Miniscript::<Pk, Ctx>::from_str_with_validation_params(&s, &ValidationParams::MAX).is_err() {
+            continue; // printing/parsing is C10's business
+        }
+        let (entries, desc_ok) = ctx_entries::<Ctx>(fix, &ms, &s);
+        let cons_ok = Miniscript::<Pk, Ctx>::from_str_with_validation_params(&s, &Ctx::CONSENSUS).is_ok();
+        let mut sigless = ValidationParams::MAX;
+        sigless.allow_sigless_branch = false;
+        let sigless_rejected = ms.validate(&sigless).is_err();
+        // limits around the script's own figures
+        let mut limits = vec![];
+        if let Some(sd) = ms.ext.sat_data {
+            let ops = (ms.ext.static_ops + sd.max_exec_op_count) as u32;
+            let items = (sd.max_witness_stack_count + 1) as u32;
+            let size = ms.script_size() as u32;
+            for (kind, fig) in [(0u8, ops), (1, items), (2, size)] {
+                for l in [fig.saturating_sub(1), fig, fig + 1] {
+                    let mut p = ValidationParams::MAX;
+                    match kind {
+                        0 => p.max_opcode_count = l as usize,
+                        1 => p.max_witness_items = l as usize,
+                        _ => p.max_script_size = l as usize,
+                    }
+                    limits.push((kind, l, ms.validate(&p).is_ok(), fig));
+                }
+            }
+        }
+        // duplicate keys: same term with every key leaf set to the same key
+        let (nk, _, _, _) = e.t.atoms();
+        let mut dup_expected = false;
+        let mut dup_rejected = false;
+        if nk >= 2 && !has_multi(&e.t) {
+            let s_dup = {
+                let mut x = s.clone();
+                for k in 1..nk {
+                    x = x.replace(&fix.pks[k].to_string(), &fix.pks[0].to_string());
+                }
+                x
+            };
+            if let Ok(m) = Miniscript::<Pk, Ctx>::from_str_with_validation_params(&s_dup, &ValidationParams::MAX) {
+                dup_expected = true;
+                let mut pd = ValidationParams::MAX;
+                pd.allow_duplicate_keys = false;
+                dup_rejected = m.validate(&pd).is_err();
+            }
+        }
+        let idx = names.len();
+        emit_shape(src, &format!("SH{idx}"), &g);
+        if samples.len() < 12 && idx % 37 == 0 {
+            samples.push(format!("{{\"term\": \"{}\", \"ctx\": {}, \"type\": \"{}\", \"accepted_by\": [{}]}}", json_escape(&g.name), g.ctx, g.ty_str, entries.iter().filter(|x| x.1).map(|x| format!("\"{}\"", x.0)).collect::<Vec<_>>().join(",")));
+        }
+        names.push(g.name.clone());
+        cases.push(Case { shape: idx, entries, desc_parser_ok: desc_ok, ms_consensus_parser_ok: cons_ok, sigless_rejected, limits, dup_expected, dup_rejected });
+        let _ = (g.base == spec::B,);
+    }
+}
+
+fn has_multi(t: &T) -> bool { format!("{:?}", t).contains("Multi") }
+
+pub fn generate(fix: &Fix, tier: &str, seed: u64, out_dir: &str) {
+    let mut src = String::from(PRELUDE);
+    src.push_str("use crate::c12::Acc;\n");
+    let mut cases = vec![];
+    let mut names = vec![];
+    let mut samples = vec![];
+    let th = tier == "thorough";
+    gen_ctx::<Segwitv0>(fix, tier, seed, if th { 4 } else { 3 }, if th { 700 } else { 220 }, &mut src, &mut cases, &mut names, &mut samples);
+    gen_ctx::<Tap>(fix, tier, seed, if th { 4 } else { 3 }, if th { 500 } else { 140 }, &mut src, &mut cases, &mut names, &mut samples);
+    gen_ctx::<Legacy>(fix, tier, seed, 3, if th { 200 } else { 80 }, &mut src, &mut cases, &mut names, &mut samples);
+    gen_ctx::<BareCtx>(fix, tier, seed, 3, if th { 120 } else { 50 }, &mut src, &mut cases, &mut names, &mut samples);
+    for c in &cases {
+        let _ = write!(src, "pub static AC{}: Acc = Acc{{shape:&SH{},entries:&[", c.shape, c.shape);
+        for (n, a) in &c.entries {
+            let _ = write!(src, "({:?},{}),", n, a);
+        }
+        let _ = write!(src, "],desc_parser_ok:{},ms_consensus_parser_ok:{},sigless_rejected:{},limits:&[", c.desc_parser_ok, c.ms_consensus_parser_ok, c.sigless_rejected);
+        for l in &c.limits {
+            let _ = write!(src, "({},{},{},{}),", l.0, l.1, l.2, l.3);
+        }
+        let _ = writeln!(src, "],dup_expected:{},dup_rejected:{}}};", c.dup_expected, c.dup_rejected);
+    }
+    for (bi, chunk) in cases.chunks(6).enumerate() {
+        let mut unwind = 24usize;
+        let _ = chunk;
+        unwind += 2;
+        let _ = writeln!(src, "// @h c12_acc_{bi:03} kind=V programs={} timeout=1500 mem=4 covers=any", chunk.len());
+        let _ = writeln!(src, "#[cfg_attr(kani, kani::proof)]\n#[cfg_attr(kani, kani::unwind({unwind}))]\npub fn c12_acc_{bi:03}() {{");
+        for c in chunk {
+            let _ = writeln!(src, "    crate::c12::acc(&AC{}); // {}", c.shape, names[c.shape]);
+        }
+        let _ = writeln!(src, "}}");
+    }
+    write_out(out_dir, "c12.rs", &src);
+    let info = format!("{{\"programs\": {}, \"samples\": [{}]}}", cases.len(), samples.join(","));
+    write_out(out_dir, "c12_info.json", &info);
+    let modp = format!("{out_dir}/mod.rs");
+    let cur = std::fs::read_to_string(&modp).unwrap_or_default();
+    if !cur.contains("pub mod c12;") {
+        std::fs::write(&modp, format!("{}pub mod c12;\n", if cur.is_empty() { "// generated - do not edit\n".to_string() } else { cur })).unwrap();
+    }
+    println!("generated {} acceptance cases", cases.len());
+}
